@@ -54,6 +54,8 @@ BINARIES = {
             "harness": "wmm", "probe_params": {}},
     "fmtcat": {"sources": ["harness/fmtcat.cpp"] + [f"harness/fmtcat_shapes_{i}.cpp" for i in range(1, 9)] + ["engine/rc_driver.cpp"],
                "flavour": "asan", "libs": RC_LIBS, "harness": "fmtcat"},
+    "fmtcat_drop": {"sources": ["harness/fmtcat.cpp"] + [f"harness/fmtcat_shapes_{i}.cpp" for i in range(1, 9)] + ["engine/rc_driver.cpp"],
+                    "flavour": "asan", "libs": RC_LIBS, "harness": "fmtcat", "defines": ["FMTCAT_DROPPING"]},
     "pattern": {"sources": ["harness/pattern.cpp", "engine/rc_driver.cpp"], "flavour": "asan", "libs": RC_LIBS, "harness": "pattern"},
     "named": {"sources": ["harness/named.cpp", "engine/rc_driver.cpp"], "flavour": "asan", "libs": RC_LIBS, "harness": "named"},
     "rot": {"sources": ["harness/rotating.cpp", "engine/rc_driver.cpp"], "flavour": "asan", "libs": RC_LIBS, "harness": "rot"},
@@ -346,6 +348,9 @@ PROPERTIES = {
             {"bin": "fmtcat",
              "quick": {"cases": 25000, "procs": 8, "maxlen": 300},
              "thorough": {"cases": 300000, "procs": 16, "maxlen": 400}},
+            {"bin": "fmtcat_drop",
+             "quick": {"cases": 25000, "procs": 4, "maxlen": 300},
+             "thorough": {"cases": 300000, "procs": 8, "maxlen": 400}},
         ],
     },
     "C07": {
@@ -367,11 +372,11 @@ PROPERTIES = {
         "assumptions": ["children run without sanitizers, RLIMIT_CORE=0, scratch dirs in /dev/shm"],
         "jobs": [
             {"bin": "crashkid", "needs": ["crash_child"], "params": {"child": "{bin:crash_child}", "mode": "mix"},
-             "quick": {"cases": 300, "procs": 1, "timeout": 1500},
-             "thorough": {"cases": 3000, "procs": 1, "params": {"all_kinds": "1"}, "timeout": 7200}, "confirm": 2},
+             "quick": {"cases": 400, "procs": 1, "timeout": 1500},
+             "thorough": {"cases": 3000, "procs": 1, "params": {"all_kinds": "1"}, "timeout": 7200}, "realthread": True},
             {"bin": "crashkid", "needs": ["crash_child"], "params": {"child": "{bin:crash_child}", "mode": "cycles", "jobs": "4"},
-             "quick": {"cases": 60, "procs": 1, "timeout": 1500},
-             "thorough": {"cases": 1500, "procs": 1, "timeout": 7200}, "confirm": 2},
+             "quick": {"cases": 100, "procs": 1, "timeout": 1500},
+             "thorough": {"cases": 1500, "procs": 1, "timeout": 7200}, "realthread": True},
         ],
     },
     "C11": {
